@@ -73,12 +73,44 @@ static int json_patch_apply_test(struct json_object **res,
 	return 0;
 }
 
+/**
+ * Returns a newly allocated copy of a JSON Pointer reference token with
+ * "~1" replaced by '/' and "~0" by '~' (RFC 6901 section 4).
+ * The token has been accepted by json_pointer_get_internal() already, so
+ * every '~' in it starts one of these two escapes.
+ */
+static char *json_patch_unescape_token(const char *token)
+{
+	char *key = strdup(token);
+	char *dst = key;
+
+	if (!key)
+		return NULL;
+	for (; *token; token++)
+	{
+		if (token[0] == '~' && (token[1] == '0' || token[1] == '1'))
+		{
+			token++;
+			*dst++ = (*token == '1') ? '/' : '~';
+		}
+		else
+			*dst++ = *token;
+	}
+	*dst = '\0';
+	return key;
+}
+
 static int __json_patch_apply_remove(struct json_pointer_get_result *jpres)
 {
 	if (json_object_is_type(jpres->parent, json_type_array)) {
 		return json_object_array_del_idx(jpres->parent, jpres->index_in_parent, 1);
 	} else if (jpres->parent && jpres->key_in_parent) {
-		json_object_object_del(jpres->parent, jpres->key_in_parent);
+		// key_in_parent points into the path string: it is still escaped
+		char *key = json_patch_unescape_token(jpres->key_in_parent);
+		if (!key)
+			return -1;
+		json_object_object_del(jpres->parent, key);
+		free(key);
 		return 0;
 	} else {
 		// We're removing the root object
